@@ -78,6 +78,33 @@ theorem Ends.rest {f : Nat} {s before ph after ph' pv pv' : Toks} {seen : List T
       simp only [e2] at h
       exact prepend_ne_outOfFuel.mp h
 
+/-- the text of the first placeholder is resolved with one unit of fuel less -/
+theorem Ends.key {f : Nat} {s before ph after : Toks} {seen : List Toks}
+    (h : Ends norm tbl (f + 1) s seen) (hf : firstPh s = some (before, ph, after)) (hc : ph ∉ seen) :
+    Ends norm tbl f ph (seen ++ [ph]) := by
+  unfold Ends at *
+  rw [resolve_succ_some f hf hc] at h
+  unfold body at h
+  intro e1
+  simp [e1] at h
+
+/-- the rest behind an unresolvable first placeholder is scanned with one unit less -/
+theorem Ends.rest_verbatim {f : Nat} {s before ph after ph' : Toks} {seen : List Toks}
+    (h : Ends norm tbl (f + 1) s seen) (hf : firstPh s = some (before, ph, after)) (hc : ph ∉ seen)
+    (h₁ : Resolves norm tbl ph (seen ++ [ph]) (.ok ph'))
+    (hp : resolvePlaceholder tbl (norm ph') = none) : Ends norm tbl f after seen := by
+  have hk := h.key hf hc
+  unfold Ends at *
+  rw [resolve_succ_some f hf hc] at h
+  unfold body at h
+  cases e1 : resolve norm f tbl ph (seen ++ [ph]) with
+  | outOfFuel => exact absurd e1 hk
+  | cycle o => cases h₁.unique ⟨f, e1, by simp⟩
+  | ok ph₂ =>
+    cases h₁.unique ⟨f, e1, by simp⟩
+    simp only [e1, hp] at h
+    exact prepend_ne_outOfFuel.mp h
+
 /-- plain text in front does not matter -/
 theorem Ends.text {f : Nat} {t s : Toks} {seen : List Toks} (h : Ends norm tbl f (t ++ s) seen)
     (ht : Tok.pre ∉ t) : Ends norm tbl f s seen := by
